@@ -9,10 +9,10 @@ import (
 
 func init() { factFns["C16"] = factsC16 }
 
-// skeleton lists, in source order, the synchronisation points and call-outs of a function:
+// c16Skeleton lists, in source order, the synchronisation points and call-outs of a function:
 // lock operations on the receiver, channel sends, `go` statements and the calls whose callee
 // (rendered) is in `keep`.
-func skeleton(rel, recv, name string, keep map[string]string) []string {
+func c16Skeleton(rel, recv, name string, keep map[string]string) []string {
 	f, fd := funcDecl(rel, recv, name)
 	if fd == nil {
 		return []string{"<missing " + name + ">"}
@@ -51,7 +51,7 @@ func skeleton(rel, recv, name string, keep map[string]string) []string {
 	return out
 }
 
-func emitStrList(name string, l []string) {
+func c16EmitStrList(name string, l []string) {
 	it := make([]string, len(l))
 	for i, s := range l {
 		it[i] = "\"" + coqEscape(s) + "\"%string"
@@ -59,8 +59,8 @@ func emitStrList(name string, l []string) {
 	fmt.Fprintf(&out, "Definition %s : list string := [%s].\n", name, strings.Join(it, "; "))
 }
 
-// switchCases: the `case N: return p.Method(...)` table of a generated Receive
-func switchCases(rel, recv string) string {
+// c16SwitchCases: the `case N: return p.Method(...)` table of a generated Receive
+func c16SwitchCases(rel, recv string) string {
 	f, fd := funcDecl(rel, recv, "Receive")
 	if fd == nil {
 		return "[]"
@@ -85,8 +85,8 @@ func switchCases(rel, recv string) string {
 	return "[" + strings.Join(items, "; ") + "]"
 }
 
-// ifConds: the conditions of the if statements of a function, as written
-func ifConds(rel, recv, name string) []string {
+// c16IfConds: the conditions of the if statements of a function, as written
+func c16IfConds(rel, recv, name string) []string {
 	f, fd := funcDecl(rel, recv, name)
 	var conds []string
 	if fd != nil {
@@ -106,9 +106,9 @@ func factsC16() {
 		"obj.Activate": "Activate", "obj.OnTerminate": "OnTerminate", "s.Add": "Add",
 		"from.SendError": "SendError",
 	}
-	emitStrList("f_svc_add_skeleton", skeleton("bus/service.go", "serviceImpl", "Add", svc))
-	emitStrList("f_svc_remove_skeleton", skeleton("bus/service.go", "serviceImpl", "Remove", svc))
-	emitStrList("f_svc_receive_skeleton", skeleton("bus/service.go", "serviceImpl", "Receive", svc))
+	c16EmitStrList("f_svc_add_skeleton", c16Skeleton("bus/service.go", "serviceImpl", "Add", svc))
+	c16EmitStrList("f_svc_remove_skeleton", c16Skeleton("bus/service.go", "serviceImpl", "Remove", svc))
+	c16EmitStrList("f_svc_receive_skeleton", c16Skeleton("bus/service.go", "serviceImpl", "Receive", svc))
 	// the random index expression of Add
 	f, fd := funcDecl("bus/service.go", "serviceImpl", "Add")
 	idx := "<none>"
@@ -133,16 +133,16 @@ func factsC16() {
 	emitNat("f_mailbox_cap", capN)
 	emitStr("f_mailbox_text", mb)
 	// generic object: action table, termination order, identity checks
-	fmt.Fprintf(&out, "Definition f_object_actions : list (N * string) := %s.\n", switchCases("bus/object_stub_gen.go", "stubObject"))
+	fmt.Fprintf(&out, "Definition f_object_actions : list (N * string) := %s.\n", c16SwitchCases("bus/object_stub_gen.go", "stubObject"))
 	emitStr("f_stub_onterminate_text", normText("bus/object_stub_gen.go", "stubObject", "OnTerminate"))
 	emitStr("f_signal_onterminate_text", normText("bus/signal.go", "signalHandler", "OnTerminate"))
 	emitStr("f_send_terminate_text", normText("bus/signal.go", "signalHandler", "sendTerminate"))
-	emitStrList("f_impl_terminate_conds", ifConds("bus/object.go", "objectImpl", "Terminate"))
+	c16EmitStrList("f_impl_terminate_conds", c16IfConds("bus/object.go", "objectImpl", "Terminate"))
 	emitStr("f_impl_terminate_text", normText("bus/object.go", "objectImpl", "Terminate"))
-	rc := ifConds("bus/signal.go", "signalHandler", "RegisterEvent")
+	rc := c16IfConds("bus/signal.go", "signalHandler", "RegisterEvent")
 	if len(rc) > 1 {
 		rc = rc[1:2]
 	}
-	emitStrList("f_register_id_cond", rc)
-	fmt.Fprintf(&out, "Definition f_pong_actions : list (N * string) := %s.\n", switchCases("examples/pong/ping_stub_gen.go", "stubPingPong"))
+	c16EmitStrList("f_register_id_cond", rc)
+	fmt.Fprintf(&out, "Definition f_pong_actions : list (N * string) := %s.\n", c16SwitchCases("examples/pong/ping_stub_gen.go", "stubPingPong"))
 }
